@@ -207,7 +207,10 @@ func httpSeed(r *core.RNG) []byte {
 	} else {
 		fmt.Fprintf(&sb, "%s http://%s/p?q=1 HTTP/1.%d\r\nHost: %s\r\n", m, h, r.Intn(3), r.PickStr(h, "other.example", ""))
 	}
-	hs := []string{"Proxy-Authorization: Basic dXNlcjpwYXNz", "Proxy-Authorization: Basic !!!", "Proxy-Authorization: Bearer x", "Connection: close", "Connection: keep-alive, X-A",
+	hs := []string{"Proxy-Authorization: Basic dXNlcjpwYXNz", "Proxy-Authorization: Basic !!!", "Proxy-Authorization: Bearer x",
+		// credentials cut at every point of "Basic <token>", with the whitespace a header value may end in
+		"Proxy-Authorization: " + "Basic dXNlcjpwYXNz"[:r.Intn(19)] + r.PickStr("", " ", "\t", "  "), "Proxy-Authorization: " + r.PickStr("basic", "BASIC", "Basic", "BaSiC ", "Basic\t", "Basic  ", "Basi", "B", ""),
+		"Proxy-Authorization: Basic " + r.PickStr("Og==", "dTo=", "OnA=", "=", "====", "dXNlcg==", "dXNlcjpwYXNzOng="), "Connection: close", "Connection: keep-alive, X-A",
 		"Transfer-Encoding: chunked", "Content-Length: 5", "Content-Length: -1", "Content-Length: 99999999999999999999", "Upgrade: websocket", "Trailer: X-T", "Expect: 100-continue", "X-A: " + strings.Repeat("v", r.Pick(1, 5000))}
 	for k := r.Intn(5); k > 0; k-- {
 		sb.WriteString(hs[r.Intn(len(hs))] + "\r\n")
